@@ -67,6 +67,9 @@ func runShutdownScenario(c shutCase) (res shutResult) {
 	if c.Kind == "storm" {
 		return runStormScenario(c)
 	}
+	if c.Kind == "openRace" {
+		return runOpenRaceScenario(c)
+	}
 	bad := func(clause, f string, a ...any) {
 		res.Devs = append(res.Devs, Deviation{Clause: clause, Props: []string{"C20"}, Sig: clause + "|" + c.Kind, Msg: fmt.Sprintf(f, a...)})
 	}
@@ -344,6 +347,11 @@ func runShutdownChild(c shutCase) (shutResult, error) {
 }
 
 func genShutCase(rt *rapid.T) shutCase {
+	if chance(rt, 8, "openRace") {
+		// several OpenBucket calls race for a closed on-disk bucket that holds a pending expiry; all
+		// handles are closed again before it is due
+		return shutCase{Kind: "openRace", Disk: true, Handles: rapid.IntRange(2, 6).Draw(rt, "openers"), Shutdown: "Close", Seed: int64(rapid.IntRange(1, 1<<30).Draw(rt, "seed"))}
+	}
 	if chance(rt, 35, "storm") {
 		c := shutCase{Kind: "storm", Handles: rapid.IntRange(1, 3).Draw(rt, "handles"), Disk: chance(rt, 50, "disk")}
 		n := rapid.IntRange(2, 6).Draw(rt, "nworkers")
